@@ -831,6 +831,10 @@ class IsoHybrid:
             self.efi_count = 0  # this will be set later
             self.primary_gpt.new(self.mac)
             self.secondary_gpt.new(self.mac)
+            # The backup GPT is a copy of the primary one, GUIDs included.
+            self.secondary_gpt.header.disk_guid = self.primary_gpt.header.disk_guid
+            for part, backup_part in zip(self.primary_gpt.parts, self.secondary_gpt.parts):
+                backup_part.part_guid = part.part_guid
 
         self._initialized = True
 
